@@ -85,7 +85,8 @@ JudgePass(rec) ==
     IN Checks("passthrough",
        << <<~rec.panic, "panic">>,
           <<rec.unmarshal_ok /\ rec.marshal_ok, "Unmarshal/Marshal failed">>,
-          <<ParaIs(rec.para, exp), "unknown fields not re-emitted unchanged in their original order, or known fields not updated in place">> >>)
+          <<ParaIs(rec.para, exp), "unknown fields not re-emitted unchanged in their original order, or known fields not updated in place">>,
+          <<rec.para_kept = rec.para, "a paragraph obtained from ConvertToParagraph changed when the struct was converted again with other fields set">> >>)
 
 JudgeMissing(rec) ==
     Checks(IF rec.in.complete THEN "required-present" ELSE "required-missing",
